@@ -369,6 +369,11 @@ func (w *World) nodeOfCur() *Node {
 
 func (w *World) Answer(node int, op string, mayFail bool) Fault {
 	n := w.nodes[node]
+	// scripted fault: the log store of one server rejects every StoreLogs for a while (a full or failing disk)
+	if w.vals["failstore"] == node+1 && mayFail && n.booted && strings.HasPrefix(op, "StoreLogs") {
+		w.logf("n%d %s error (scripted: store rejects writes)", node, op)
+		return FaultError
+	}
 	if w.noDevs || w.sc.Devs&DevStore == 0 || !w.storeFaultsOn || !n.up || w.nodeOfCur() != n {
 		return FaultNone
 	}
